@@ -4,7 +4,9 @@ C01 — transfer functions of constant folding, copied branch for branch from th
   * `calculate<R,T>`            lib/calculate.h           (T = MathLib::bigint = long long, and T = int as used by infer.cpp)
   * `ValueFlow::castValue`      lib/vf_common.cpp         (integer part)
   * the "Calculations.." / `~` / unary minus / `!` / `++` / `--` branches of `setTokenValue`, lib/vf_settokenvalue.cpp,
-    for Known integer operands (`foldBinary`, `foldNot`, `foldCompl`, `foldNeg`, `foldIncDec`)
+    for Known integer operands (`foldBinary`, `foldIncDec`; the unary branches are C10's `Trunc.foldUnary`)
+  * the transfer of an Impossible value through a compound assignment in forward analysis
+    (`ValueFlowAnalyzer::isWritable` / `writeValue` / `evalAssignment`, lib/vf_analyzers.cpp): `carryOps`, `carryImpossible`
 A `bigint` is an `Int` in [-2^63, 2^63).  Signed overflow in the C++ is undefined behaviour; the objects built from the
 working tree (-O1, g++) wrap, and the model wraps (`wrap64`); the theorems never rely on a wrapped result.
 -/
@@ -90,20 +92,34 @@ def castValue (v : Int) (signed : Bool) (bit : Nat) : Option Int :=
     `truncateImplicitConversion` only looks at the *parent* of the token the value is attached to. -/
 def foldBinary (op : Op) (a b : Int) : Option Int := calculate op a b
 
-/-- `!`: `v.intvalue = !v.intvalue` -/
-def foldNot (a : Int) : Int := b2i (a == 0)
-
-/-- `~`: complement in 64 bits, masked to `bits` only for unsigned `int` / `long` operands
-    (`bits` = 0 for every other operand type, as in the code) -/
-def foldCompl (a : Int) (bits : Nat) : Int :=
-  let c := Int.not a
-  if 0 < bits ∧ bits < 64 then toI64 (toU64 c &&& (2 ^ bits - 1)) else c
-
-/-- unary minus: `LLONG_MIN` is skipped -/
-def foldNeg (a : Int) : Option Int := if a = minI64 then none else some (-a)
+/- The unary branches (`!`, `~`, unary minus) of `setTokenValue` are modelled by C10: `Cppcheck.Trunc.foldUnary`, with the C
+   specification `Cppcheck.Trunc.cUnary` / `promote` and the theorems `fold_lnot`, `fold_bnot_partial`, `fold_neg_partial` (+ their
+   counterexamples) in Props/C10.lean.  C01 does not copy them; its end-to-end tie exercises them on narrow operands
+   (`~ - !` on (un)signed char / short variables and casts, vlib/props/c01.py `make_unary_program`). -/
 
 /-- prefix `++` / `--` on a Point value with a typed operand: `truncateIntValue(v ± 1, sizeof, sign)` -/
 def foldIncDec (inc : Bool) (a : Int) (size : Nat) (signed : Bool) : Option Int :=
   truncateIntValue (wrap64 (if inc then a + 1 else a - 1)) size signed
+
+/-! ## an Impossible value carried through `x op= k` / `++x` / `--x` by forward analysis -/
+
+/-- the operators of the guard `value->isImpossible() && !Token::Match(parent, "+=|-=|*=|++|--")` in
+    `ValueFlowAnalyzer::isWritable` (compared with the source on every run by the translator in c01.py) -/
+def carryOps : List String := ["+=", "-=", "*=", "++", "--"]
+
+/-- `writeValue`: the new `intvalue` of an Impossible value `v` of `x` after `x op= k` (`evalAssignment` = `calculate` with the
+    operator without `=`; an error makes the value invalid) resp. `++x` / `--x` (`intvalue ± 1`; truncation to the type is
+    the identity on the `int`-and-wider values the theorems talk about).  The bound (Point / Lower / Upper) is left as it is.
+    `none`: the value is not carried (operator not in the list, or `calculate` reports an error). -/
+def carryImpossible (op : String) (k v : Int) : Option Int :=
+  if carryOps.contains op then
+    match op with
+    | "+=" => calculate .add v k
+    | "-=" => calculate .sub v k
+    | "*=" => calculate .mul v k
+    | "++" => some (wrap64 (v + 1))
+    | "--" => some (wrap64 (v - 1))
+    | _ => none
+  else none
 
 end Cppcheck.Calc
